@@ -12,7 +12,7 @@ import props_probe
 
 def main():
     seed = int(os.environ.get("VERIF_SEED", "1"))
-    for pkg, prof in (("layoutmon", "fastdebug"), ("layoutmon", "release"), ("vecmon", "dev"), ("vecmon", "release")):
+    for pkg, prof in (("layoutmon", "fastdebug"), ("layoutmon", "release"), ("vecmon", "dev"), ("vecmon", "release"), ("vecmon", "devabort"), ("vecmon", "relabort")):
         common.cargo_build(pkg, prof)
         print("built", pkg, prof, flush=True)
     props_probe.probe_deps()
